@@ -126,3 +126,8 @@ Example cfg_sample_install_uncommitted_rejected :
   run_hist [1; 2; 3] sample_cfg_install_uncommitted = HFail 10 1000.
 Proof. exact sample_cfg_install_uncommitted_rejected. Qed.
 Print Assumptions cfg_sample_install_uncommitted_rejected.
+
+(* a request cut by the network after one whole entry, then delivered again in full *)
+Example cfg_sample_cut_accepted : explain_all [1; 2; 3] sample_cfg_cut = [].
+Proof. exact sample_cfg_cut_accepted. Qed.
+Print Assumptions cfg_sample_cut_accepted.
